@@ -370,3 +370,12 @@ package fosite
 
 //@ func GetAudiences
 //@   pure
+
+// Merge copies identity, client and session of the other request and adds its scopes/audiences (as sets).
+//@ interface Requester.Merge
+//@   modifies recv.GetID(), recv.GetRequestedAt(), recv.GetClient(), recv.GetSession(), recv.GetRequestedScopes(), recv.GetGrantedScopes(), recv.GetRequestedAudience(), recv.GetGrantedAudience(), recv.GetRequestForm()
+//@   ensures recv.GetID() == requester.GetID() && recv.GetRequestedAt() == requester.GetRequestedAt() && recv.GetClient() == requester.GetClient() && recv.GetSession() == requester.GetSession()
+//@   ensures forall x string :: insl(recv.GetGrantedScopes(), x) <==> (insl(old(recv.GetGrantedScopes()), x) || insl(requester.GetGrantedScopes(), x))
+//@   ensures forall x string :: insl(recv.GetGrantedAudience(), x) <==> (insl(old(recv.GetGrantedAudience()), x) || insl(requester.GetGrantedAudience(), x))
+//@   ensures forall x string :: insl(recv.GetRequestedScopes(), x) <==> (insl(old(recv.GetRequestedScopes()), x) || insl(requester.GetRequestedScopes(), x))
+//@   ensures forall x string :: insl(recv.GetRequestedAudience(), x) <==> (insl(old(recv.GetRequestedAudience()), x) || insl(requester.GetRequestedAudience(), x))
